@@ -238,6 +238,10 @@ fn e1_plan(prop: P, tier: &Tier) -> Vec<PlanItem> {
                 v.push(item(Box::new(Grid::f1_cyclic()), named(vec![("sync", sync_cfg())]), 1));
                 v.push(item(f2(RootMenu::AnyVersion, &no_filter), two_axes(), 1));
             }
+            if prop == P::C05 || prop == P::C01 {
+                // soft requirements: accepted soft solvables are additional roots of the support
+                v.push(item(Box::new(Decorated::new_with("F5 soft skeletons", soft_skeletons(), f5k(q), false, &f5_filter)), two_axes(), if q { 1 } else { 2 }));
+            }
             if prop == P::C02 {
                 v.push(item(
                     gapped(Box::new(Grid::f1().with_root(RootMenu::AnyVersion))),
@@ -270,7 +274,7 @@ fn e1_plan(prop: P, tier: &Tier) -> Vec<PlanItem> {
             if prop == P::C04 {
                 v.push(item(
                     Box::new(Decorated::new_with("F5 soft skeletons", soft_skeletons(), f5k(q), false, &f5_filter)),
-                    named(vec![("sync", sync_cfg()), ("async-fifo", async_cfg(K_CANDS | K_DEPS, false))]),
+                    named(vec![("sync", sync_cfg()), ("sync hints=All", hint_cfg(Hint::All)), ("async-fifo", async_cfg(K_CANDS | K_DEPS, false))]),
                     1,
                 ));
                 v.push(item(f4(tier), named(vec![("sync", sync_cfg())]), if q { 8 } else { 1 }));
